@@ -243,7 +243,7 @@ def reward_value(case, space, cfg, d):
   r = reward_base(case, space, d)
   wrapped = case.get('reward_form') == 'wrapped'     # the other form feedback() accepts: a float for a multi-objective
   if multi_objective(cfg):                            # algorithm, a 1-tuple for a single-objective one
-    return float(r) if wrapped else (float(r), float((space.m - 1 - i + r) % 5))
+    return float(r % 3) if wrapped else (float(r % 3), float((i + r // 3) % 3))
   return (float(r),) if wrapped else float(r)
 
 def reward_base(case, space, d):
@@ -291,6 +291,9 @@ def observe(space, cfg, alg):
   if isinstance(alg, e.Evolution):
     pop = [enc_dna(space, d) for d in alg.population]
     extra = [1 if alg._population_initialized else 0, alg.num_generations]
+    if cfg[0] == 'nsga2':     # the global state NSGA2 keeps: cursor of next_elite and the elites (by proposal id)
+      gs = alg.global_state
+      extra += [gs.get('elite_cursor', 0)] + [d.metadata.get('proposal_id', -1) for d in gs.get('elites', [])]
   if isinstance(alg, p.geno.Deduping):
     items = []
     for k, v in alg._cache.items():
@@ -584,7 +587,7 @@ def gen_cfg(rng, kind):
   if kind == 'regevo':
     t = rng.choice([2, 3]); return ['regevo', rng.choice([t, t + 1, 5]), t, seed]
   if kind == 'hill': return ['hill', rng.choice([1, 2, 3]), rng.choice([1, 2, 3]), seed]
-  if kind == 'nsga2': return ['nsga2', rng.choice([2, 3]), seed]
+  if kind == 'nsga2': return ['nsga2', rng.choice([2, 3, 3, 4, 5]), seed]
   if kind == 'neat': return ['neat', rng.choice([2, 3, 4]), seed]
   if kind == 'gevo':
     init = rng.choice([['sweep'], ['rand', seed], ['rand', None], ['dedup', ['rand', seed], 0, 0, 1, rng.choice([3, 100])]])
@@ -663,7 +666,7 @@ def enc_alg(cfg, space, res, need, obj):
   if k == 'hill':
     return [3, [1, draws(space, cfg[3], need)], [cfg[2]], [2, 1], rp]
   if k == 'nsga2':
-    return [3, [1, draws(space, cfg[2], need)], [2 * cfg[1]], [4, res['updates']], rp]
+    return [3, [1, draws(space, cfg[2], need)], [2 * cfg[1]], [6, cfg[1]], rp]
   if k == 'neat':
     return [3, [1, draws(space, cfg[2], need)], [cfg[1]], [3], rp]
   if k == 'gevo':
@@ -681,7 +684,7 @@ def model_case(case, res):
   base = list(case['rewards']) if space.finite else [reward_base(case, space, d) for d in space.dnas]
   if multi_objective(cfg):
     wrapped = case.get('reward_form') == 'wrapped'
-    rewards = [pack_reward((float(r),) if wrapped else (float(r), float((space.m - 1 - i + r) % 5))) for i, r in enumerate(base)]
+    rewards = [pack_reward((float(r % 3),) if wrapped else (float(r % 3), float((i + r // 3) % 3))) for i, r in enumerate(base)]
   else:
     rewards = base
   return [enc_alg(cfg, space, res, need, res['live']), space.m, rewards, [EV[e] for e in case['sched']]]
@@ -735,11 +738,12 @@ def plan(ctx):
   """The case list of a run: corpus, then for every configuration kind the (k, w) schedules of the property, then random schedules."""
   rng = ctx.rng
   cases = [('corpus', c) for c in corpus_cases()] + exhaustive_cases(ctx)
-  for kind in KINDS:
+  kinds = [k for k in os.environ.get('C15_KINDS', '').split(',') if k] or KINDS     # C15_KINDS=nsga2,neat: debugging aid
+  for kind in kinds:
     for w in (0, 1, 2, 3):
       for n in ctx.scale([8], [6, 14, 30]):
         cases.append(('lag%d' % w, gen_case(rng, kind, n=n, lag=w)))
-    for _ in range(ctx.scale(5, 120)):
+    for _ in range(ctx.scale(5, 120) * (len(KINDS) // len(kinds))):
       cases.append(('random', gen_case(rng, kind)))
   return cases
 
@@ -808,6 +812,8 @@ def run(ctx):
     ctx.hist('schedule_kind', tag)
     ctx.hist('space', case['space'])
     ctx.hist('reward_form', case.get('reward_form', 'native'))
+    if case['alg'][0] == 'nsga2':
+      ctx.hist('nsga2_max_elites', max([len(o[0][4]) - 3 for o in outs] or [0]))
     ctx.hist('crash_points_per_case', min(info['crash_points'] // 10 * 10, 60))
     ctx.hist('max_in_flight', info['max_inflight'])
     ctx.hist('run_ended_by', 'schedule' if info['terminal'] is None or info['terminal'][0] >= len(case['sched']) else 'propose-raised-%s' % {0: 'StopIteration', 1: 'ValueError', 6: 'ZeroDivisionError'}.get(info['terminal'][1], info['terminal'][1]))
